@@ -3,8 +3,8 @@ from checks import _balls_common as common
 
 ID = "C04"
 LEVEL = "exploration"
-RUNS = {"quick": 4000, "thorough": 100000}
-WALL_CAP = {"quick": 150, "thorough": 3600}
+RUNS = {"quick": 6000, "thorough": 100000}
+WALL_CAP = {"quick": 200, "thorough": 3600}
 RULE = ("one case = one of eight machine topologies (t1 trough+coil plunger, t2 +two-ball lock, t3 +entrance-counted VUK, t4 "
         "mechanical plunger, t5 +ball save, t6 two independent feeds, t7 three-stage chain, t8 two-ball launcher) with 1-4 balls, a swarm-drawn eject "
         "failure rate and scheduler knobs, and a history of game actions (start, drain, playfield hit, multiball add, lock "
